@@ -372,11 +372,16 @@ Definition xs_fuel (xs : extractors) : Prop :=
   (exists ls i, x_loop xs ls i = POutOfFuel) \/
   (exists ls i n, x_join xs ls i n = POutOfFuel).
 
-(* value, diagnostic, or exactly what an extractor returned *)
-Definition safe (xs : extractors) {A} (m : pres A) : Prop :=
+(* the AttributeError of _validate_single_call: the call oracle says that the body of some parsed
+   argument string is not a Call node *)
+Definition attr_escape (is_call : string -> bool) (k : internal) : Prop :=
+  k = INoneAttr /\ exists a, is_call a = false.
+
+(* value, diagnostic, exactly what an extractor returned, or that AttributeError *)
+Definition safe (xs : extractors) (is_call : string -> bool) {A} (m : pres A) : Prop :=
   match m with
   | POk _ | PDiag _ => True
-  | PInternal k => xs_internal xs k
+  | PInternal k => xs_internal xs k \/ attr_escape is_call k
   | POutOfFuel => xs_fuel xs
   end.
 
@@ -386,16 +391,18 @@ Variable is_call : string -> bool.
 Variable xs : extractors.
 Hypothesis xs_ok : extractors_ok xs.
 
-Lemma safe_ood : forall A (m : pres A), ok_or_diag m -> safe xs m.
+Notation safe := (safe xs is_call).
+
+Lemma safe_ood : forall A (m : pres A), ok_or_diag m -> safe m.
 Proof. intros A m [[a H]|[d H]]; subst; simpl; auto. Qed.
 
 Lemma safe_bind : forall A B (m : pres A) (f : A -> pres B),
-  safe xs m -> (forall a, m = POk a -> safe xs (f a)) -> safe xs (pbind m f).
+  safe m -> (forall a, m = POk a -> safe (f a)) -> safe (pbind m f).
 Proof. intros A B [a|d|k|] f Hm Hf; simpl in *; auto. Qed.
 
 (* the iteration is safe and, when it succeeds, moves the index forward *)
 Definition adv (i : nat) (m : pres (pstate * nat)) : Prop :=
-  safe xs m /\ forall st' i', m = POk (st', i') -> i < i'.
+  safe m /\ forall st' i', m = POk (st', i') -> i < i'.
 
 Lemma adv_ok : forall i st i', i < i' -> adv i (POk (st, i')).
 Proof. intros. split; simpl; auto. intros ? ? H0. inversion H0; subst; auto. Qed.
@@ -407,7 +414,7 @@ Lemma adv_dsyn : forall i s j, adv i (dsyn s j).
 Proof. intros. apply adv_diag. Qed.
 
 Lemma adv_bind : forall A i (m : pres A) f,
-  safe xs m -> (forall a, m = POk a -> adv i (f a)) -> adv i (pbind m f).
+  safe m -> (forall a, m = POk a -> adv i (f a)) -> adv i (pbind m f).
 Proof.
   intros A i [a|d|k|] f Hm Hf; simpl in *; try (split; simpl; auto; discriminate).
   apply Hf; auto.
@@ -426,15 +433,15 @@ Proof.
   adv_if; [apply adv_ok; lia|].
   adv_if.
   { apply adv_bind.
-    - destruct (x_python xs lines i) eqn:E; simpl; auto; [left|left]; eauto.
+    - destruct (x_python xs lines i) eqn:E; simpl; auto; [left; left|left]; eauto.
     - intros [code n] E. apply adv_ok. apply Hpy in E. lia. }
   adv_if.
   { apply adv_bind.
-    - destruct (x_conditional xs lines i) eqn:E; simpl; auto; [right; left|right; left]; eauto.
+    - destruct (x_conditional xs lines i) eqn:E; simpl; auto; [left; right; left|right; left]; eauto.
     - intros [t n] E. apply adv_ok. apply Hcond in E. lia. }
   adv_if.
   { apply adv_bind.
-    - destruct (x_loop xs lines i) eqn:E; simpl; auto; [right; right; left|right; right; left]; eauto.
+    - destruct (x_loop xs lines i) eqn:E; simpl; auto; [left; right; right; left|right; right; left]; eauto.
     - intros [t n] E. apply adv_ok. apply Hloop in E. lia. }
   adv_if.
   { apply adv_bind; [apply safe_ood, ood_retag, parse_render_line_ood|].
@@ -461,7 +468,7 @@ Proof.
     destruct (String.eqb target "@join").
     - apply adv_bind.
       + destruct (x_join xs lines (S i) (indent_of line)) eqn:E; simpl; auto;
-          [right; right; right|right; right; right]; eauto.
+          [left; right; right; right|right; right; right]; eauto.
       + intros [[bc be] n] _. apply adv_ok; lia.
     - apply adv_ok; lia. }
   adv_if.
@@ -502,7 +509,7 @@ Proof.
 Qed.
 
 Lemma parse_loop_safe : forall fuel lines i st,
-  List.length lines < fuel + i -> safe xs (parse_loop pp xs fuel lines (List.length lines) i st).
+  List.length lines < fuel + i -> safe (parse_loop pp xs fuel lines (List.length lines) i st).
 Proof.
   induction fuel as [|f IH]; intros lines i st Hf.
   - simpl. destruct (List.length lines <=? i) eqn:E; simpl; auto. apply Nat.leb_gt in E. lia.
@@ -531,15 +538,38 @@ Qed.
 (* every parsed argument string is a call (`tree.body` is an ast.Call) *)
 Definition calls_are_calls : Prop := forall a, is_call a = true.
 
-Lemma validate_single_call_ood : calls_are_calls ->
-  forall ps tg a, ok_or_diag (validate_single_call pp is_call ps tg a).
+(* value, diagnostic, or the AttributeError *)
+Definition vres {A} (m : pres A) : Prop :=
+  ok_or_diag m \/ (m = PInternal INoneAttr /\ exists a, is_call a = false).
+
+Lemma vres_ood : forall A (m : pres A), ok_or_diag m -> vres m.
+Proof. intros; left; auto. Qed.
+
+Lemma vres_bind : forall A B (m : pres A) (f : A -> pres B),
+  vres m -> (forall a, m = POk a -> vres (f a)) -> vres (pbind m f).
 Proof.
-  intros Hc ps tg a. unfold validate_single_call.
-  destruct (String.eqb tg "@join"); auto with ood.
-  destruct (lookup tg ps) as [tp|]; auto with ood.
-  destruct (params tp) as [|p0 pr] eqn:Eps; [destruct (nonempty a); auto with ood|].
-  destruct (py_call_shape pp a) as [[npos kws]|]; auto with ood.
-  rewrite Hc. simpl negb. cbv iota.
+  intros A B m f [[[a Ha]|[d Hd]]|[Hm Hx]] Hf; subst; simpl; auto.
+  - left. auto with ood.
+  - right. auto.
+Qed.
+
+Lemma vres_safe : forall A (m : pres A), vres m -> safe m.
+Proof.
+  intros A m [H|[H Hx]]; [apply safe_ood; auto|]. subst. simpl. right. split; auto.
+Qed.
+
+Lemma vres_calls : calls_are_calls -> forall A (m : pres A), vres m -> ok_or_diag m.
+Proof. intros Hc A m [H|[_ [a Ha]]]; auto. rewrite Hc in Ha. discriminate. Qed.
+
+Lemma validate_single_call_vres : forall ps tg a, vres (validate_single_call pp is_call ps tg a).
+Proof.
+  intros ps tg a. unfold validate_single_call.
+  destruct (String.eqb tg "@join"); [apply vres_ood; auto with ood|].
+  destruct (lookup tg ps) as [tp|]; [|apply vres_ood; auto with ood].
+  destruct (params tp) as [|p0 pr] eqn:Eps; [destruct (nonempty a); apply vres_ood; auto with ood|].
+  destruct (py_call_shape pp a) as [[npos kws]|]; [|apply vres_ood; auto with ood].
+  destruct (is_call a) eqn:Ec; [|right; split; eauto].
+  apply vres_ood. simpl negb. cbv iota.
   destruct (List.length (p0 :: pr) <? npos) eqn:El; auto with ood.
   destruct (existsb _ kws); auto with ood.
   apply Nat.ltb_ge in El.
@@ -550,12 +580,11 @@ Qed.
 
 Section Walk.
 Variable ps : list (string * passage).
-Hypothesis Hc : calls_are_calls.
 
-Lemma check_choices_ood : forall cs, ok_or_diag (check_choices pp is_call ps cs).
+Lemma check_choices_vres : forall cs, vres (check_choices pp is_call ps cs).
 Proof.
-  induction cs as [|c r IH]; simpl; auto with ood.
-  apply ood_bind; [apply validate_single_call_ood; auto|auto].
+  induction cs as [|c r IH]; simpl; [apply vres_ood; auto with ood|].
+  apply vres_bind; [apply validate_single_call_vres|auto].
 Qed.
 
 Definition toks_fix := fix toks (l : list token) : pres unit :=
@@ -567,35 +596,35 @@ Definition toks_fix := fix toks (l : list token) : pres unit :=
 Lemma toks_fix_eq : forall l, toks_fix l = check_tokens pp is_call ps l.
 Proof. induction l as [|x r IH]; simpl; auto. destruct (check_token pp is_call ps x); simpl; auto. Qed.
 
-Lemma check_tokens_ood : forall l,
-  Forall (fun t => ok_or_diag (check_token pp is_call ps t)) l -> ok_or_diag (check_tokens pp is_call ps l).
+Lemma check_tokens_vres : forall l,
+  Forall (fun t => vres (check_token pp is_call ps t)) l -> vres (check_tokens pp is_call ps l).
 Proof.
-  induction 1; simpl; auto with ood. apply ood_bind; auto.
+  induction 1; simpl; [apply vres_ood; auto with ood|]. apply vres_bind; auto.
 Qed.
 
-Lemma check_token_ood : forall t, ok_or_diag (check_token pp is_call ps t).
+Lemma check_token_vres : forall t, vres (check_token pp is_call ps t).
 Proof.
-  induction t using token_ind'; try (simpl; auto with ood; fail).
+  induction t using token_ind'; try (simpl; apply vres_ood; auto with ood; fail).
   - (* TCond *)
-    simpl. induction H as [|[c cont chs] r [Hcont Hchs] Hr IH]; auto with ood.
-    apply ood_bind; [apply check_choices_ood|]. intros _ _.
-    apply ood_bind; [|intros; apply IH].
-    change (ok_or_diag (toks_fix cont)). rewrite toks_fix_eq. apply check_tokens_ood. exact Hcont.
+    simpl. induction H as [|[c cont chs] r [Hcont Hchs] Hr IH]; [apply vres_ood; auto with ood|].
+    apply vres_bind; [apply check_choices_vres|]. intros _ _.
+    apply vres_bind; [|intros; apply IH].
+    change (vres (toks_fix cont)). rewrite toks_fix_eq. apply check_tokens_vres. exact Hcont.
   - (* TLoop *)
-    simpl. apply ood_bind; [apply check_choices_ood|]. intros _ _.
-    change (ok_or_diag (toks_fix cont)). rewrite toks_fix_eq. apply check_tokens_ood. exact H.
+    simpl. apply vres_bind; [apply check_choices_vres|]. intros _ _.
+    change (vres (toks_fix cont)). rewrite toks_fix_eq. apply check_tokens_vres. exact H.
   - (* TJump *)
-    simpl. apply validate_single_call_ood; auto.
+    simpl. apply validate_single_call_vres.
 Qed.
 
-Lemma check_tokens_ood' : forall l, ok_or_diag (check_tokens pp is_call ps l).
-Proof. intros. apply check_tokens_ood. apply Forall_forall. intros. apply check_token_ood. Qed.
+Lemma check_tokens_vres' : forall l, vres (check_tokens pp is_call ps l).
+Proof. intros. apply check_tokens_vres. apply Forall_forall. intros. apply check_token_vres. Qed.
 
-Lemma validate_passages_ood : forall todo, ok_or_diag (validate_passages pp is_call ps todo).
+Lemma validate_passages_vres : forall todo, vres (validate_passages pp is_call ps todo).
 Proof.
-  induction todo as [|[k p] r IH]; simpl; auto with ood.
-  apply ood_bind; [apply check_choices_ood|]. intros _ _.
-  apply ood_bind; [apply check_tokens_ood'|auto].
+  induction todo as [|[k p] r IH]; simpl; [apply vres_ood; auto with ood|].
+  apply vres_bind; [apply check_choices_vres|]. intros _ _.
+  apply vres_bind; [apply check_tokens_vres'|auto].
 Qed.
 End Walk.
 
@@ -605,19 +634,422 @@ Proof. intros. unfold check_duplicate_passages. destruct (existsb _ _); auto wit
 Lemma determine_initial_ood : forall ps es, ok_or_diag (determine_initial_passage ps es).
 Proof. intros. unfold determine_initial_passage. repeat ood_step; auto with ood. Qed.
 
-(* parse: never out of fuel or internal, except for what an extractor itself returned *)
-Lemma parse_safe : calls_are_calls -> forall lines, safe xs (parse pp is_call xs lines).
+(* parse: value, diagnostic, what an extractor itself returned, or the AttributeError *)
+Lemma parse_safe : forall lines, safe (parse pp is_call xs lines).
 Proof.
-  intros Hc lines. unfold parse.
+  intros lines. unfold parse.
   apply safe_bind; [apply parse_loop_safe; lia|]. intros st _.
   apply safe_bind; [apply safe_ood, check_duplicate_ood|]. intros _ _.
-  apply safe_bind; [apply safe_ood, validate_passages_ood; auto|]. intros _ _.
+  apply safe_bind; [apply vres_safe, validate_passages_vres|]. intros _ _.
   apply safe_bind; [apply safe_ood, determine_initial_ood|]. intros; simpl; auto.
 Qed.
 
-(* without the hypothesis on the call oracle the only extra outcome is the AttributeError *)
-Lemma parse_loop_part_safe : forall lines,
-  safe xs (parse_loop pp xs (S (List.length lines)) lines (List.length lines) 0 init_state).
-Proof. intros. apply parse_loop_safe. lia. Qed.
+Lemma parse_safe_calls : calls_are_calls -> forall lines,
+  match parse pp is_call xs lines with
+  | POk _ | PDiag _ => True
+  | PInternal k => xs_internal xs k
+  | POutOfFuel => xs_fuel xs
+  end.
+Proof.
+  intros Hc lines. pose proof (parse_safe lines) as H.
+  destruct (parse pp is_call xs lines); simpl in *; auto.
+  destruct H as [H|[_ [a Ha]]]; auto. rewrite Hc in Ha. discriminate.
+Qed.
+
+Lemma parse_fuel : forall lines, parse pp is_call xs lines = POutOfFuel -> xs_fuel xs.
+Proof. intros lines H. pose proof (parse_safe lines) as S. rewrite H in S. exact S. Qed.
+
+Lemma parse_loop_fuel : forall lines,
+  parse_loop pp xs (S (List.length lines)) lines (List.length lines) 0 init_state = POutOfFuel -> xs_fuel xs.
+Proof.
+  intros lines H. pose proof (parse_loop_safe (S (List.length lines)) lines 0 init_state ltac:(lia)) as S.
+  rewrite H in S. exact S.
+Qed.
 
 End MainLoop.
+
+(* ------------------------------------------------------------------------------------------- *)
+(* C12, structural half: what holds of every story that parse returns                           *)
+(* ------------------------------------------------------------------------------------------- *)
+
+Lemma pbind_ok : forall A B (m : pres A) (f : A -> pres B) b,
+  pbind m f = POk b -> exists a, m = POk a /\ f a = POk b.
+Proof. intros A B [a|d|k|] f b H; simpl in H; try discriminate. eauto. Qed.
+
+(* --- initial passage --- *)
+
+(* @start > "Start" > first passage *)
+Definition follows_priority (ps : list (string * passage)) (es : option string) (i : string) : Prop :=
+  let default := if has_key "Start" ps then i = "Start" else exists p r, ps = (i, p) :: r in
+  match es with
+  | Some s => if nonempty s then i = s else default
+  | None => default
+  end.
+
+Lemma has_key_head : forall A k (p : A) r, has_key k ((k, p) :: r) = true.
+Proof. intros. unfold has_key. simpl. rewrite String.eqb_refl. reflexivity. Qed.
+
+Lemma determine_initial_spec : forall ps es i,
+  determine_initial_passage ps es = POk i -> has_key i ps = true /\ follows_priority ps es i.
+Proof.
+  intros ps es i H. unfold determine_initial_passage in H. unfold follows_priority.
+  destruct ps as [|[k p] r]; try discriminate.
+  assert (D : forall j, POk (if has_key "Start" ((k, p) :: r) then "Start" else k) = POk j ->
+              has_key j ((k, p) :: r) = true /\
+              (if has_key "Start" ((k, p) :: r) then j = "Start" else exists p0 r0, (k, p) :: r = (j, p0) :: r0)).
+  { intros j Hj. inversion Hj; subst. destruct (has_key "Start" ((k, p) :: r)) eqn:E; auto.
+    split; [apply has_key_head|eauto]. }
+  destruct es as [s|]; auto.
+  destruct (nonempty s); auto.
+  destruct (has_key s ((k, p) :: r)) eqn:E; inversion H; subst; auto.
+Qed.
+
+(* --- keys are ids --- *)
+
+Definition keys_ok (l : list (string * ppassage)) : Prop := forall k p, In (k, p) l -> pp_id p = k.
+
+Lemma keys_ok_set_key : forall l p, keys_ok l -> keys_ok (set_key (pp_id p) p l).
+Proof.
+  induction l as [|[k0 p0] r IH]; intros p H k q Hin; simpl in *.
+  - destruct Hin as [Hin|[]]. inversion Hin; subst; auto.
+  - destruct (String.eqb (pp_id p) k0) eqn:E.
+    + destruct Hin as [Hin|Hin]; [inversion Hin; subst; auto|]. apply H. right; auto.
+    + destruct Hin as [Hin|Hin]; [inversion Hin; subst; apply H; left; auto|].
+      eapply IH; eauto. intros k' p' H'. apply H. right; auto.
+Qed.
+
+Lemma keys_ok_flush : forall st, keys_ok (st_passages st) -> keys_ok (flush_current st).
+Proof. intros st H. unfold flush_current. destruct (st_current st); auto. apply keys_ok_set_key; auto. Qed.
+
+Section Structure.
+Variable pp : pyparse.
+Variable is_call : string -> bool.
+Variable xs : extractors.
+
+(* a property of the state an iteration returns *)
+Definition lift (R : pstate -> Prop) (m : pres (pstate * nat)) : Prop :=
+  forall st' i', m = POk (st', i') -> R st'.
+
+Lemma lift_ok : forall (R : pstate -> Prop) st i, R st -> lift R (POk (st, i)).
+Proof. intros R st i H st' i' E. inversion E; subst; auto. Qed.
+Lemma lift_diag : forall R d, lift R (PDiag d).
+Proof. intros R d st' i' E. discriminate. Qed.
+Lemma lift_bind : forall A R (m : pres A) f, (forall a, lift R (f a)) -> lift R (pbind m f).
+Proof. intros A R [a|d|k|] f H st' i' E; simpl in E; try discriminate. eapply H; eauto. Qed.
+
+Ltac lift_if := match goal with |- lift _ (if ?b then _ else _) => destruct b end.
+
+(* an iteration inside a passage only replaces the passage being built *)
+Lemma body_step_shape : forall (R : pstate -> Prop) lines i line st cp,
+  R st -> (forall cp', R (set_current st cp')) -> lift R (body_step pp xs lines i line st cp).
+Proof.
+  intros R lines i line st cp H0 H1. unfold body_step.
+  lift_if; [apply lift_ok; auto|].
+  lift_if; [apply lift_bind; intros [? ?]; apply lift_ok; auto|].
+  lift_if; [apply lift_bind; intros [? ?]; apply lift_ok; auto|].
+  lift_if; [apply lift_bind; intros [? ?]; apply lift_ok; auto|].
+  lift_if; [apply lift_bind; intros [?|]; apply lift_ok; auto|].
+  lift_if; [apply lift_bind; intros [?|]; apply lift_ok; auto|].
+  lift_if.
+  { destruct (split_ws (strip line)) as [|a [|b [|c [|? ?]]]]; try apply lift_diag. apply lift_ok; auto. }
+  lift_if.
+  { destruct (split_ws (strip line)) as [|a [|b [|c [|? ?]]]]; try apply lift_diag. apply lift_ok; auto. }
+  lift_if; [apply lift_ok; auto|].
+  lift_if.
+  { destruct (arrow_rest _); [destruct (extract_target_and_args _)|]; apply lift_ok; auto. }
+  lift_if.
+  { destruct (strip_inline_comment _). destruct (extract_multiline_expression _ _ _).
+    destruct (py_stmt_ok _ _); [apply lift_ok; auto|apply lift_diag]. }
+  lift_if.
+  { apply lift_bind. intros _. apply lift_bind.
+    intros [[text target args cond sticky sec tags blk]|]; [|apply lift_diag].
+    destruct (String.eqb target "@join").
+    - apply lift_bind. intros [[? ?] ?]. apply lift_ok; auto.
+    - apply lift_ok; auto. }
+  lift_if.
+  { lift_if; apply lift_bind; intros; apply lift_ok; auto. }
+  apply lift_ok; auto.
+Qed.
+
+Lemma parse_step_keys : forall lines i line st,
+  keys_ok (st_passages st) -> lift (fun s => keys_ok (st_passages s)) (parse_step pp xs lines i line st).
+Proof.
+  intros lines i line st0 H. unfold parse_step.
+  match goal with |- lift _ (match ?p with inl _ => _ | inr _ => _ end) =>
+    assert (Hp : (forall s, p = inl s -> st_passages s = st_passages st0) /\
+                 (forall s j, p = inr (s, j) -> st_passages s = st_passages st0));
+      [|destruct p as [st1|[s j]]] end.
+  { split; intros; repeat match goal with H : context [if ?b then _ else _] |- _ => destruct b end;
+      match goal with H : _ = _ |- _ => inversion H; subst; reflexivity end. }
+  2:{ destruct Hp as [_ Hp]. apply lift_ok. rewrite (Hp s j eq_refl). auto. }
+  destruct Hp as [Hp _]. specialize (Hp st1 eq_refl).
+  lift_if; [apply lift_ok; simpl; rewrite Hp; auto|].
+  match goal with |- lift _ (match ?p with inl _ => _ | inr _ => _ end) =>
+    assert (Hq : (forall s, p = inl s -> st_passages s = st_passages st1) /\
+                 (forall s j, p = inr (s, j) -> st_passages s = st_passages st1));
+      [|destruct p as [st2|[s j]]] end.
+  { split; intros;
+      repeat match goal with
+             | H : context [if ?b then _ else _] |- _ => destruct b
+             | H : context [match find_char ?a ?b with _ => _ end] |- _ => destruct (find_char a b)
+             end;
+      match goal with H : _ = _ |- _ => inversion H; subst; reflexivity end. }
+  2:{ destruct Hq as [_ Hq]. apply lift_ok. rewrite (Hq s j eq_refl), Hp. auto. }
+  destruct Hq as [Hq _]. specialize (Hq st2 eq_refl).
+  assert (H2 : keys_ok (st_passages st2)) by (rewrite Hq, Hp; auto).
+  lift_if; [apply lift_ok; simpl; auto|].
+  lift_if.
+  { destruct (strip_inline_comment _). destruct (extract_passage_params _). destruct (parse_tags _).
+    apply lift_bind. intros _. apply lift_bind. intros ps. apply lift_ok. simpl.
+    apply keys_ok_flush; auto. }
+  destruct (st_current st2); [|apply lift_ok; auto].
+  apply body_step_shape; simpl; auto.
+Qed.
+
+Lemma parse_loop_keys : forall fuel lines n i st st',
+  keys_ok (st_passages st) -> parse_loop pp xs fuel lines n i st = POk st' -> keys_ok (st_passages st').
+Proof.
+  induction fuel as [|f IH]; intros lines n i st st' H E; simpl in E.
+  - destruct (n <=? i); [inversion E; subst; auto|discriminate].
+  - destruct (n <=? i); [inversion E; subst; auto|].
+    destruct (nth_error lines i) as [line|]; try discriminate.
+    apply pbind_ok in E. destruct E as [[st1 i1] [E1 E2]].
+    eapply IH; [|exact E2]. eapply (parse_step_keys lines i line st H); eauto.
+Qed.
+
+(* what `parse` returns, taken apart *)
+Lemma parse_inv : forall lines0 story,
+  parse pp is_call xs lines0 = POk story ->
+  exists fs,
+    (let lines := strip_comments_outside_python lines0 None false 0 in
+     parse_loop pp xs (S (List.length lines)) lines (List.length lines) 0 init_state = POk fs) /\
+    keys_ok (flush_current fs) /\
+    passages story = map (fun kv => (fst kv, finish_passage (snd kv))) (flush_current fs) /\
+    validate_passage_arguments pp is_call (passages story) = POk tt /\
+    determine_initial_passage (passages story) (st_explicit_start fs) = POk (initial story).
+Proof.
+  intros lines0 story H. unfold parse in H.
+  apply pbind_ok in H. destruct H as [fs [E1 H]].
+  apply pbind_ok in H. destruct H as [[] [E2 H]].
+  apply pbind_ok in H. destruct H as [[] [E3 H]].
+  apply pbind_ok in H. destruct H as [ini [E4 H]].
+  inversion H; subst; clear H. simpl.
+  exists fs. repeat split; auto.
+  apply keys_ok_flush. eapply parse_loop_keys; [|exact E1]. intros k p [].
+Qed.
+
+End Structure.
+
+(* --- targets --- *)
+
+Definition target_defined (ps : list (string * passage)) (tg : string) : Prop :=
+  tg = "@join" \/ has_key tg ps = true.
+
+Definition choices_targets_ok (ps : list (string * passage)) (cs : list choice) : Prop :=
+  Forall (fun c => target_defined ps (ch_target c)) cs.
+
+(* every jump target and every choice target of the token tree, at any depth of conditionals and
+   loops, is defined *)
+Fixpoint targets_ok (ps : list (string * passage)) (t : token) {struct t} : Prop :=
+  let toks := fix toks (l : list token) : Prop :=
+      match l with [] => True | x :: r => targets_ok ps x /\ toks r end in
+  let brs := fix brs (l : list branch) : Prop :=
+      match l with
+      | [] => True
+      | Branch _ cont chs :: r => choices_targets_ok ps chs /\ toks cont /\ brs r
+      end in
+  match t with
+  | TJump tg _ => target_defined ps tg
+  | TCond branches => brs branches
+  | TLoop _ _ cont chs => choices_targets_ok ps chs /\ toks cont
+  | _ => True
+  end.
+
+Definition tokens_targets_ok (ps : list (string * passage)) (l : list token) : Prop :=
+  Forall (targets_ok ps) l.
+
+Section Targets.
+Variable pp : pyparse.
+Variable is_call : string -> bool.
+Variable ps : list (string * passage).
+
+Lemma validate_single_call_target : forall tg a,
+  validate_single_call pp is_call ps tg a = POk tt -> target_defined ps tg.
+Proof.
+  intros tg a H. unfold validate_single_call in H. unfold target_defined.
+  destruct (String.eqb tg "@join") eqn:E; [left; apply String.eqb_eq; auto|].
+  right. unfold has_key. destruct (lookup tg ps); auto. discriminate.
+Qed.
+
+Lemma check_choices_targets : forall cs,
+  check_choices pp is_call ps cs = POk tt -> choices_targets_ok ps cs.
+Proof.
+  induction cs as [|c r IH]; intros H; [constructor|]. simpl in H.
+  apply pbind_ok in H. destruct H as [[] [H1 H2]].
+  constructor; [eapply validate_single_call_target; eauto|apply IH; auto].
+Qed.
+
+Definition toks_ok_fix := fix toks (l : list token) : Prop :=
+  match l with [] => True | x :: r => targets_ok ps x /\ toks r end.
+
+Lemma toks_ok_fix_eq : forall l, toks_ok_fix l <-> tokens_targets_ok ps l.
+Proof.
+  induction l as [|x r IH]; simpl; split; intros H; auto.
+  - constructor.
+  - destruct H as [H1 H2]. constructor; auto. apply IH; auto.
+  - inversion H; subst. split; auto. apply IH; auto.
+Qed.
+
+Lemma check_tokens_targets_aux : forall l,
+  Forall (fun t => check_token pp is_call ps t = POk tt -> targets_ok ps t) l ->
+  check_tokens pp is_call ps l = POk tt -> tokens_targets_ok ps l.
+Proof.
+  induction 1 as [|x r Hx Hr IH]; intros H; [constructor|]. simpl in H.
+  apply pbind_ok in H. destruct H as [[] [H1 H2]]. constructor; auto. apply IH; auto.
+Qed.
+
+Lemma check_token_targets : forall t, check_token pp is_call ps t = POk tt -> targets_ok ps t.
+Proof.
+  induction t using token_ind'; intros E; try exact I.
+  - (* TCond *)
+    simpl in *. induction H as [|[c cont chs] r [Hcont Hchs] Hr IH]; auto.
+    apply pbind_ok in E. destruct E as [[] [E1 E]].
+    apply pbind_ok in E. destruct E as [[] [E2 E3]].
+    split; [apply check_choices_targets; auto|]. split; [|apply IH; auto].
+    change (toks_ok_fix cont). apply toks_ok_fix_eq.
+    apply check_tokens_targets_aux; [exact Hcont|].
+    rewrite <- (toks_fix_eq pp is_call ps). exact E2.
+  - (* TLoop *)
+    simpl in *. apply pbind_ok in E. destruct E as [[] [E1 E2]].
+    split; [apply check_choices_targets; auto|].
+    change (toks_ok_fix cont). apply toks_ok_fix_eq.
+    apply check_tokens_targets_aux; [exact H|].
+    rewrite <- (toks_fix_eq pp is_call ps). exact E2.
+  - (* TJump *)
+    simpl in E. eapply validate_single_call_target; eauto.
+Qed.
+
+Lemma check_tokens_targets : forall l,
+  check_tokens pp is_call ps l = POk tt -> tokens_targets_ok ps l.
+Proof.
+  intros l. apply check_tokens_targets_aux. apply Forall_forall. intros t _. apply check_token_targets.
+Qed.
+
+Lemma validate_passages_targets : forall todo,
+  validate_passages pp is_call ps todo = POk tt ->
+  forall k p, In (k, p) todo -> choices_targets_ok ps (choices p) /\ tokens_targets_ok ps (content p).
+Proof.
+  induction todo as [|[k0 p0] r IH]; intros H k p Hin; [destruct Hin|]. simpl in H.
+  apply pbind_ok in H. destruct H as [[] [H1 H]].
+  apply pbind_ok in H. destruct H as [[] [H2 H3]].
+  destruct Hin as [Hin|Hin].
+  - inversion Hin; subst. split; [apply check_choices_targets|apply check_tokens_targets]; auto.
+  - eapply IH; eauto.
+Qed.
+End Targets.
+
+(* ------------------------------------------------------------------------------------------- *)
+(* the statements of Props/C11.v                                                                *)
+(* ------------------------------------------------------------------------------------------- *)
+
+Lemma line_functions_total_lemma :
+  (forall s, ok_or_diag (parse_content_line s)) /\
+  (forall s, ok_or_diag (parse_inline_conditional s)) /\
+  (forall s, ok_or_diag (split_expressions_with_depth s)) /\
+  (forall s, ok_or_diag (parse_choice_line s)) /\
+  (forall s i, ok_or_diag (validate_choice_syntax s i)) /\
+  (forall s i, ok_or_diag (validate_passage_name s i)) /\
+  (forall s, ok_or_diag (parse_passage_params s)) /\
+  (forall c s, ok_or_diag (parse_render_line c s)) /\
+  (forall c s, ok_or_diag (parse_input_line c s)).
+Proof.
+  repeat split; intros.
+  - apply parse_content_line_ood.
+  - apply parse_inline_conditional_ood.
+  - apply split_expressions_ood.
+  - apply parse_choice_line_ood.
+  - apply validate_choice_syntax_ood.
+  - apply validate_passage_name_ood.
+  - apply parse_passage_params_ood.
+  - apply parse_render_line_ood.
+  - apply parse_input_line_ood.
+Qed.
+
+Lemma parse_ok_initial_lemma : forall pp is_call xs lines0 story,
+  parse pp is_call xs lines0 = POk story ->
+  has_key (initial story) (passages story) = true /\
+  exists fs,
+    (let lines := strip_comments_outside_python lines0 None false 0 in
+     parse_loop pp xs (S (List.length lines)) lines (List.length lines) 0 init_state = POk fs) /\
+    follows_priority (passages story) (st_explicit_start fs) (initial story).
+Proof.
+  intros pp is_call xs lines0 story H. apply parse_inv in H.
+  destruct H as [fs [H0 [_ [_ [_ H]]]]]. apply determine_initial_spec in H. destruct H as [H1 H2].
+  split; auto. exists fs. split; auto.
+Qed.
+
+Lemma parse_ok_keys_lemma : forall pp is_call xs lines0 story,
+  parse pp is_call xs lines0 = POk story ->
+  forall k p, In (k, p) (passages story) -> pid p = k.
+Proof.
+  intros pp is_call xs lines0 story H k p Hin. apply parse_inv in H.
+  destruct H as [fs [_ [Hk [Hp _]]]]. rewrite Hp in Hin. apply in_map_iff in Hin.
+  destruct Hin as [[k0 p0] [E Hin]]. simpl in E. inversion E; subst. simpl. apply Hk; auto.
+Qed.
+
+Lemma validated_targets_lemma : forall pp is_call xs lines0 story,
+  parse pp is_call xs lines0 = POk story ->
+  forall k p, In (k, p) (passages story) ->
+    choices_targets_ok (passages story) (choices p) /\ tokens_targets_ok (passages story) (content p).
+Proof.
+  intros pp is_call xs lines0 story H k p Hin. apply parse_inv in H.
+  destruct H as [fs [_ [_ [_ [Hv _]]]]]. eapply validate_passages_targets; eauto.
+Qed.
+
+Lemma parse_never_out_of_fuel_lemma : forall pp xs lines,
+  extractors_ok xs ->
+  parse_loop pp xs (S (List.length lines)) lines (List.length lines) 0 init_state = POutOfFuel ->
+  xs_fuel xs.
+Proof. intros pp xs lines Hx. exact (parse_loop_fuel pp (fun _ => true) xs Hx lines). Qed.
+
+Lemma parse_whole_never_out_of_fuel_lemma : forall pp is_call xs lines,
+  extractors_ok xs -> parse pp is_call xs lines = POutOfFuel -> xs_fuel xs.
+Proof. intros pp is_call xs lines Hx. exact (parse_fuel pp is_call xs Hx lines). Qed.
+
+Lemma parse_total_partial_lemma : forall pp is_call xs,
+  extractors_ok xs -> (forall a, is_call a = true) ->
+  forall lines,
+    match parse pp is_call xs lines with
+    | POk _ | PDiag _ => True
+    | PInternal k => xs_internal xs k
+    | POutOfFuel => xs_fuel xs
+    end.
+Proof. intros pp is_call xs Hx Hc lines. exact (parse_safe_calls pp is_call xs Hx Hc lines). Qed.
+
+Lemma parse_total_general_lemma : forall pp is_call xs,
+  extractors_ok xs ->
+  forall lines,
+    match parse pp is_call xs lines with
+    | POk _ | PDiag _ => True
+    | PInternal k => xs_internal xs k \/ (k = INoneAttr /\ exists a, is_call a = false)
+    | POutOfFuel => xs_fuel xs
+    end.
+Proof. intros pp is_call xs Hx lines. exact (parse_safe pp is_call xs Hx lines). Qed.
+
+(* ------------------------------------------------------------------------------------------- *)
+(* witnesses used by Props/C11.v                                                                *)
+(* ------------------------------------------------------------------------------------------- *)
+
+(* the argument string  "(") + (")"  and oracles that answer as CPython's ast does on it *)
+Definition binop_args : string := """("") + ("")""".
+Definition binop_oracle : pyparse := mkPyparse (fun _ => true) (fun _ => Some (0, [])).
+Definition binop_is_call (a : string) : bool := negb (String.eqb a binop_args).
+
+(* a small story and an oracle for its two call sites *)
+Definition sample_oracle : pyparse :=
+  mkPyparse (fun _ => true) (fun a => if String.eqb a "1" then Some (1, []) else Some (0, [])).
+
+Definition sample_lines : list string :=
+  ["import random"; "@start Hall"; ":: Start"; "Hello {name} // greeting"; "~ x = 1";
+   "+ [Go {x ? now | later}] -> Hall(1) ^tag"; ":: Hall(n)"; "@render card(n)"; "-> Start"].
+
